@@ -66,9 +66,50 @@ def definition_axioms():
     return ax
 
 
+def unit_resolve(A, rounds=3):
+    """Unit resolution over the hypotheses: a disjunct that is the negation of another hypothesis is dropped, and a
+    disjunction left with one disjunct is flattened -- so that a quantified fact guarded by `x is None or ...` becomes a
+    top-level (instantiable) hypothesis once `x is not None` is known.  Equivalence-preserving."""
+    for _ in range(rounds):
+        true_ids = {}     # id -> term (the terms are kept alive: z3 reuses the ids of collected ASTs)
+        for a in A:
+            if not z3.is_quantifier(a):
+                sa = z3.simplify(a)
+                true_ids[sa.get_id()] = sa
+        out = []
+        changed = False
+        for a in A:
+            b = a
+            if z3.is_app_of(a, z3.Z3_OP_IMPLIES):
+                b = z3.Or(z3.Not(a.arg(0)), a.arg(1))
+            if z3.is_app_of(b, z3.Z3_OP_OR):
+                keep = []
+                for d in b.children():
+                    if z3.is_quantifier(d):
+                        keep.append(d)
+                        continue
+                    nd = z3.simplify(z3.Not(d))
+                    if nd.get_id() in true_ids:
+                        changed = True
+                        continue
+                    keep.append(d)
+                if len(keep) == 1:
+                    out += conjuncts(keep[0])
+                    changed = True
+                    continue
+                if len(keep) < b.num_args():
+                    out.append(z3.Or(keep) if keep else z3.BoolVal(False))
+                    continue
+            out.append(a)
+        A = out
+        if not changed:
+            break
+    return A
+
+
 def check_qf(q, timeout_ms):
     """instantiate, then quantifier-free check.  -> 'unsat' | 'sat' | 'unknown', model"""
-    A = flatten(q.assumptions)
+    A = unit_resolve(flatten(q.assumptions))
     ground = [a for a in A if not z3.is_quantifier(a)]
     quants = [a for a in A if z3.is_quantifier(a)]
     neg = skolemize_neg_goal(q.goal)
